@@ -29,9 +29,10 @@ def _disc_f(params):
 
 def _step_f(params):
     c, k = params["c"], params["k"]
+    cap = params.get("cap", 1000)
 
     def f(x):
-        return sum(min(int(math.floor(min(abs(xi - ci), 1e6) * k)), 1000) for xi, ci in zip(x, c))      # capped: bounded above
+        return sum(min(int(math.floor(min(abs(xi - ci), 1e6) * k)), cap) for xi, ci in zip(x, c))      # capped: bounded above
     return f
 
 
@@ -236,6 +237,12 @@ def gen(rng, solver=None):
             case.update(max_iter=rng.choice([1, 3, 6]), n_initial=rng.choice([2, 4]), acquisition=rng.choice(["ei", "ucb"]))
         if s == "nelder_mead":
             case.update(adaptive=rng.random() < 0.3, step=rng.choice([0.05, 0.5, 1.0]))
+            if rng.random() < 0.6:
+                # a fine-grained objective (steps of 1/100 or 1/1000) and a short run: reflected, expanded and best vertex get three
+                # different values, and whatever the last iterations throw away is not recovered later
+                case["fparams"]["k"] = rng.choice([100, 1000])
+                case["fparams"]["cap"] = 100000
+                case["max_iter"] = rng.choice([1, 2, 3, 4, 6, 12])
     if s not in ("bayesian_opt", "powell", "bfgs", "lbfgs") and rng.random() < (0.6 if s == "evolve" else 0.25):
         case["stop_at"] = rng.choice([1, 1, 2, 3, 5, 8])
         case["progress_interval"] = rng.choice([1, 1, 2])
